@@ -86,6 +86,8 @@ ALET = [T(ABD + 'let', ABD + 'let:bool', variant='constants', args={'definitions
 ASUPP = [T(ABD + 'support', ABD + 'support:names', variant='names', calls={B + 'support': B + 'support!proved:names'}),
          T(ABD + 'support', ABD + 'support:levels', variant='levels', calls={B + 'support': B + 'support!proved:levels'})]
 
+UNDECL = [T(B + 'undeclare_vars', B + 'undeclare_vars!refusals', variant='refusals')]
+
 TARGETS = {
     'C01': CORE + apply_targets(['not', 'and', 'or', 'xor', 'implies', 'equiv', 'diff', 'ite']) + AOPS
     + [T(ABD + 'ite')] + aapply_targets(['~', 'and', '\\/', '#', '=>', '<->', '-', 'ite']) + ARITY,
@@ -118,10 +120,10 @@ TARGETS = {
     'C12': [T(B + '_load')],
     'C13': IMAGE,
     'C14': [T(B + 'add_var'), T(B + '_check_var'), T(B + '_next_free_level'), T(B + '_init_terminal'), T(B + 'declare'),
-            T(B + 'var_at_level'), T(B + 'level_of_var'), T(B + 'var_levels'), T(B + 'var', B + 'var!body')],
+            T(B + 'var_at_level'), T(B + 'level_of_var'), T(B + 'var_levels'), T(B + 'var', B + 'var!body')] + UNDECL,
     'C17': [T(B + 'find_or_add'), T(B + 'add_var'), T(B + '_check_var'), T(B + '_next_free_level'), T(B + 'var_at_level'),
             T(B + 'level_of_var'), T(B + 'var', B + 'var!body'), T('dd.bdd.rename'), T(B + '_next_free_int')]
     + apply_targets(['not', 'and', 'ite', 'forall']) + PLUMBING[1:]
-    + [T(AF + '__init__'), T(ABD + '_wrap'), T(ABD + '_add_int'), T(ABD + 'var'), T(ABD + 'ite'), T(ABD + 'quantify')] + aapply_targets(['!', '||', 'ite']) + ARITY + [T(ABD + '__contains__'), T(B + '_add_int')] + M2L + SWAPV[2:],
+    + [T(AF + '__init__'), T(ABD + '_wrap'), T(ABD + '_add_int'), T(ABD + 'var'), T(ABD + 'ite'), T(ABD + 'quantify')] + aapply_targets(['!', '||', 'ite']) + ARITY + [T(ABD + '__contains__'), T(B + '_add_int')] + M2L + SWAPV[2:] + UNDECL,
     'C18': [T(B + 'succ'), T(B + '__len__'), T(B + '__contains__')] + AVIEWS + [T(B + '_descendants'), T(B + 'descendants')],
 }
